@@ -234,6 +234,57 @@ def _eval_bool(fn, val, limit=200):
     return None
 
 
+def walk_bodies(F):
+    """every body of the capture walk: the Dependencies impls (dependencies / supplies / net_dependencies), the trait defaults, get_net_dependencies,
+    and their closures"""
+    out = []
+    for f in F.crates["compiler"].fns:
+        topp = re.sub(r"::\{closure#\d+\}", "", f.path)
+        if re.search(r" as compiler::ast::Dependencies>::(dependencies|supplies|net_dependencies)$", topp) or topp in (
+                "compiler::ast::get_net_dependencies", "compiler::ast::Dependencies::net_dependencies", "compiler::ast::Dependencies::supplies",
+                "compiler::ast::Dependencies::dependencies"):
+            out.append((f, topp))
+    return out
+
+
+KEYED = re.compile(r"(HashSet|HashMap|BTreeSet|BTreeMap|IndexMap|IndexSet)")
+
+
+def name_identity(F, rep, rule):
+    """Inside the capture walk a dependency is (name, type): the captured `x` (CallbackVariable(int)) and a local `x` (int) are two dependencies.
+    Code in the walk that files dependencies under their *name* -- a name handed to a set / map, a name compared with a name, a dedup -- merges
+    them, and the capture of `x` is lost for `modify x = ..` after a local `x = ..`."""
+    bodies = walk_bodies(F)
+    rep.floor(rule + " bodies of the capture walk", len(bodies), 50)
+    hits = []
+    for f, topp in bodies:
+        names = [c for c in f.calls() if mir.strip_generics(c.callee()).endswith("Dependency::name") or mir.strip_generics(c.callee()).endswith("ident::Ident::name")]
+        der = f.derived([c.dst["l"] for c in names], through_call=lambda c, idx: True if (c.matches(("alloc::borrow::ToOwned::to_owned", "alloc::string::ToString::to_string",
+                                                                                                     "core::clone::Clone::clone", "core::convert::Into::into",
+                                                                                                     "core::convert::From::from", "core::ops::deref::Deref::deref",
+                                                                                                     "alloc::string::String::as_str")) or c.callee().endswith("::as_ref") or c.callee().endswith("::to_owned") or c.callee().endswith("::to_string")) else None) if names else {}
+        for c in f.calls():
+            if f.blocks[c.bb].get("cleanup"):
+                continue
+            cal = c.callee()
+            fed = [a for a in c.args if op_local(a) in der]
+            if fed and (KEYED.search(cal) or _is_cmp(c)):
+                hits.append((f, topp, c, "a dependency's name is %s" % ("compared with another name" if _is_cmp(c) else "used as a key (%s)" % mir.short(cal))))
+            elif re.search(r"Vec::(dedup|dedup_by|dedup_by_key)$", mir.strip_generics(cal)):
+                hits.append((f, topp, c, "dependencies are de-duplicated (%s)" % mir.short(cal)))
+    seen = set()
+    for f, topp, c, why in hits:
+        k = (topp, why)
+        if k in seen:
+            continue
+        seen.add(k)
+        rep.ob(rule, "%s keeps dependencies apart by name and type" % mir.short(topp), "violated", "%s at %s: a captured variable and a same-named local become one entry" % (why, c.span),
+               c.span, fn=f.path, key="%s|%s|%s" % (rule, mir.short(topp), why.split(" (")[0]))
+    if not hits:
+        rep.ob(rule, "nothing in the capture walk files dependencies under their name alone (%d bodies)" % len(bodies), "ok", "", None, key=rule + "|summary")
+
+
 def run(F, rep, rule_prefix="C07"):
+    name_identity(F, rep, rule_prefix + ".dependency-identity")
     supply_filter(F, rep, rule_prefix + ".supply-filter")
     dependency_equality(F, rep, rule_prefix + ".dependency-equality")
